@@ -14,6 +14,7 @@ import (
 	"github.com/samber/lo"
 	appsv1 "k8s.io/api/apps/v1"
 	corev1 "k8s.io/api/core/v1"
+	resourcev1 "k8s.io/api/resource/v1"
 	storagev1 "k8s.io/api/storage/v1"
 	"k8s.io/apimachinery/pkg/api/resource"
 	metav1 "k8s.io/apimachinery/pkg/apis/meta/v1"
@@ -49,6 +50,13 @@ type jPool struct {
 	Healthy   bool   `json:"registration_healthy,omitempty"`
 	OwnSlice  bool   `json:"own_instance_type_slice,omitempty"`
 	NotReady  bool   `json:"not_ready,omitempty"`
+	Static    bool   `json:"static_replicas,omitempty"`
+	ITErr     string `json:"instance_types_error,omitempty"` // generic | unevaluated | deadline | empty
+	NoTypes   bool   `json:"requirements_match_no_type,omitempty"`
+	NodeLimit int    `json:"node_limit,omitempty"` // limits.nodes = NodeLimit-1 (0 = unset)
+	NoSched   bool   `json:"no_schedule_taint,omitempty"`
+	Deleting  bool   `json:"deleting,omitempty"`
+	ConsAfter string `json:"consolidate_after,omitempty"` // "" = 30s | 0s | Never
 }
 
 type jIT struct {
@@ -58,6 +66,7 @@ type jIT struct {
 	Zones    []string `json:"zones"`
 	Reserved int      `json:"reserved_capacity,omitempty"`
 	Unavail  bool     `json:"one_offering_unavailable,omitempty"`
+	Huge     bool     `json:"hugepages,omitempty"`
 	// offerings that override the type's capacity and/or overhead (computeAllocatable groups)
 	Overrides []jOverride `json:"override_offerings,omitempty"`
 }
@@ -87,6 +96,15 @@ type jPod struct {
 	NoDisrupt bool   `json:"do_not_disrupt,omitempty"`
 	Tolerate  bool   `json:"tolerates_all,omitempty"`
 	Acked     bool   `json:"acked,omitempty"`
+	DRA       string `json:"resource_claim,omitempty"` // "" | claim | missing-claim
+	TwoTerms  bool   `json:"two_required_node_affinity_terms,omitempty"`
+	PrefAff   bool   `json:"preferred_pod_affinity,omitempty"`
+	HostIP    string `json:"host_ip,omitempty"`
+	UDP       bool   `json:"host_port_udp,omitempty"`
+	Phase     string `json:"phase,omitempty"`
+	State     string `json:"state,omitempty"` // bound pods: "" running | succeeded | terminating ; pending pods: "" | preempting
+	Owner     string `json:"owner,omitempty"` // "" replicaset | none | node (mirror pod)
+	Ephemeral bool   `json:"ephemeral_volume,omitempty"`
 }
 
 type jNode struct {
@@ -103,6 +121,15 @@ type jNode struct {
 	Tainted   bool   `json:"tainted,omitempty"`
 	CSILimit  int    `json:"csi_limit,omitempty"`
 	LateMark  bool   `json:"marked_after_candidates,omitempty"`
+	Unreg     bool   `json:"not_registered,omitempty"`
+	Startup   bool   `json:"startup_and_ephemeral_taints,omitempty"`
+	ZeroAlloc bool   `json:"node_reports_zero_cpu,omitempty"`
+	NoHost    bool   `json:"no_hostname_label,omitempty"`
+	Devices   int    `json:"dra_devices,omitempty"`
+	Spot      bool   `json:"spot,omitempty"`
+	NodeDel   bool   `json:"node_deleting,omitempty"`        // unmanaged node with a deletion timestamp
+	Term      bool   `json:"instance_terminating,omitempty"` // NodeClaim condition InstanceTerminating=True
+	CSINil    bool   `json:"csi_driver_without_allocatable,omitempty"`
 	Pods      []jPod `json:"pods,omitempty"`
 }
 
@@ -127,6 +154,11 @@ type jWorld struct {
 	Pending    []jPod  `json:"pending"`
 	DaemonSets []jPod  `json:"daemonsets,omitempty"`
 	PDB        bool    `json:"blocking_pdb,omitempty"`
+	DRA        bool    `json:"dra_enabled,omitempty"`              // IgnoreDRARequests=false
+	MaxITs     int     `json:"max_instance_types,omitempty"`       // scheduling.MaxInstanceTypes for this world (0 = default 600)
+	Buffer     int     `json:"capacity_buffer_replicas,omitempty"` // CapacityBuffer feature gate + one ready buffer
+	BatchMax   int     `json:"batch_max_duration_s,omitempty"`     // 0 = default; sets the nomination window max(2*d, 10s)
+	CPUReq     int     `json:"cpu_requests_m,omitempty"`           // 0 = default; number of scheduler workers of a provisioning pass
 	Ops        []jOp   `json:"ops"`
 }
 
@@ -140,7 +172,16 @@ func genPod(r *kit.Rand, name string, bound bool) jPod {
 		p.HostPort = kit.Pick(r, []int{8080, 8080, 8081, 9090})
 	}
 	if r.Chance(1, 4) {
-		p.PVC = kit.Pick(r, []string{"pvc-a", "pvc-b", "pvc-c"})
+		p.PVC = kit.Pick(r, []string{"pvc-a", "pvc-b", "pvc-c", "pvc-bound", "pvc-nosc", "pvc-emptysc"})
+	}
+	if p.HostPort != 0 && r.Chance(1, 3) {
+		p.HostIP = kit.Pick(r, []string{"10.0.0.1", "10.0.0.2"})
+	}
+	if p.HostPort != 0 && r.Chance(1, 4) {
+		p.UDP = true
+	}
+	if r.Chance(1, 10) {
+		p.DRA = kit.Pick(r, []string{"claim", "claim", "missing-claim"})
 	}
 	if r.Chance(1, 5) {
 		p.Anti = true
@@ -165,7 +206,37 @@ func genPod(r *kit.Rand, name string, bound bool) jPod {
 		if r.Chance(1, 6) {
 			p.PrefAnti = true
 		}
+		if r.Chance(1, 8) {
+			p.PrefAff = true
+		}
+		if r.Chance(1, 8) {
+			p.TwoTerms = true
+		}
+		if r.Chance(1, 12) {
+			p.PVC = "pvc-missing" // a running pod whose claim was deleted
+		}
+		if r.Chance(1, 8) {
+			p.State = kit.Pick(r, []string{"succeeded", "terminating"})
+		}
+		if r.Chance(1, 10) {
+			p.Owner = kit.Pick(r, []string{"none", "node"})
+		}
+		p.Ephemeral = r.Chance(1, 12)
 		return p
+	}
+	if r.Chance(1, 8) {
+		p.PrefAff = true
+	}
+	if r.Chance(1, 8) {
+		p.TwoTerms = true
+	}
+	if r.Chance(1, 12) {
+		p.State = "preempting"
+	}
+	p.Ephemeral = r.Chance(1, 12)
+	p.Phase = "Pending"
+	if r.Chance(1, 8) {
+		p.Phase = "" // a pod whose status.phase was not written yet
 	}
 	if r.Chance(1, 3) {
 		p.PrefZone = kit.Pick(r, append([]string{"no-such-zone"}, zones...))
@@ -180,7 +251,7 @@ func genPod(r *kit.Rand, name string, bound bool) jPod {
 		p.PrefAnti = true
 	}
 	if r.Chance(1, 7) {
-		p.Invalid = kit.Pick(r, []string{"missing-pvc", "restricted-label"})
+		p.Invalid = kit.Pick(r, []string{"missing-pvc", "restricted-label", "no-karpenter", "match-fields"})
 	}
 	p.Acked = r.Chance(2, 3)
 	return p
@@ -204,7 +275,20 @@ func genWorld(r *kit.Rand, thorough bool) jWorld {
 		if r.Chance(1, 4) {
 			p.MinValues = r.Range(1, 4)
 		}
-		p.NotReady = i > 0 && r.Chance(1, 10)
+		p.NotReady = (i > 0 && r.Chance(1, 10)) || r.Chance(1, 25)
+		p.Static = r.Chance(1, 12)
+		if r.Chance(1, 8) {
+			p.ITErr = kit.Pick(r, []string{"generic", "unevaluated", "deadline", "empty"})
+		}
+		p.NoTypes = r.Chance(1, 12)
+		if r.Chance(1, 8) {
+			p.NodeLimit = 1 + r.Range(0, 3)
+		}
+		p.NoSched = r.Chance(1, 8)
+		p.Deleting = i > 0 && r.Chance(1, 12)
+		if r.Chance(1, 3) {
+			p.ConsAfter = kit.Pick(r, []string{"0s", "Never"})
+		}
 		w.Pools = append(w.Pools, p)
 	}
 	nIT := r.Range(3, lo.Ternary(thorough, 9, 6))
@@ -227,6 +311,7 @@ func genWorld(r *kit.Rand, thorough bool) jWorld {
 			it.Reserved = r.Range(1, 2)
 		}
 		it.Unavail = r.Chance(1, 6)
+		it.Huge = r.Chance(1, 8)
 		if r.Chance(2, 5) {
 			for k := r.Range(1, 2); k > 0; k-- {
 				o := jOverride{Zone: fmt.Sprintf("test-zone-%d", 3+k), Available: r.Chance(3, 4)}
@@ -268,6 +353,21 @@ func genWorld(r *kit.Rand, thorough bool) jWorld {
 			n.CSILimit = r.Range(1, 3)
 		}
 		n.LateMark = !n.Marked && r.Chance(1, 12)
+		if n.Managed && n.HasNode && r.Chance(1, 8) {
+			n.Unreg, n.Init = true, false
+		}
+		if n.Managed && n.HasNode && !n.Init {
+			n.Startup = r.Chance(1, 2)
+			n.ZeroAlloc = r.Chance(1, 2)
+		}
+		n.NoHost = r.Chance(1, 8)
+		n.Spot = r.Chance(1, 3)
+		n.NodeDel = !n.Managed && r.Chance(1, 6)
+		n.Term = n.Managed && r.Chance(1, 12)
+		n.CSINil = n.CSILimit > 0 && r.Chance(1, 4)
+		if r.Chance(1, 3) {
+			n.Devices = r.Range(1, 2)
+		}
 		if n.HasNode {
 			for k := r.Intn(4); k > 0; k-- {
 				n.Pods = append(n.Pods, genPod(r, fmt.Sprintf("bound-%d", podN), true))
@@ -288,9 +388,26 @@ func genWorld(r *kit.Rand, thorough bool) jWorld {
 		if r.Chance(1, 3) {
 			d.ReqZone = kit.Pick(r, zones)
 		}
+		if r.Chance(1, 6) {
+			d.DRA = "claim"
+		}
+		d.Tolerate = r.Chance(1, 3)
 		w.DaemonSets = append(w.DaemonSets, d)
 	}
 	w.PDB = r.Chance(1, 6)
+	w.DRA = r.Chance(1, 3)
+	if r.Chance(1, 8) {
+		w.MaxITs = r.Range(1, 3)
+	}
+	if r.Chance(1, 6) {
+		w.Buffer = r.Range(1, 2)
+	}
+	if r.Chance(1, 3) {
+		w.BatchMax = kit.Pick(r, []int{1, 5, 30})
+	}
+	if r.Chance(1, 3) {
+		w.CPUReq = kit.Pick(r, []int{4000, 16000})
+	}
 	nOps := r.Range(1, lo.Ternary(thorough, 8, 5))
 	for i := 0; i < nOps; i++ {
 		o := jOp{Kind: "sim", Ctx: "normal"}
@@ -304,7 +421,7 @@ func genWorld(r *kit.Rand, thorough bool) jWorld {
 			o.Ctx, o.Countdown = "countdown", r.Range(0, 12)
 		}
 		if r.Chance(1, 12) {
-			o.Fault = kit.Pick(r, []string{"list-pods", "list-pdbs", "list-nodepools"})
+			o.Fault = kit.Pick(r, []string{"list-pods", "list-pdbs", "list-nodepools", "list-node-pods", "list-daemonsets", "get-pvc", "list-resourceslices"})
 		}
 		if o.Kind == "sim" {
 			o.Consol = r.Bool()
@@ -337,6 +454,8 @@ type world struct {
 	cluster   *state.Cluster
 	rec       *test.EventRecorder
 	prov      *provisioning.Provisioner
+	dac       *deviceallocation.Controller
+	vpc       *virtualpods.Cache
 	queue     *disruption.Queue
 	cands     []*disruption.Candidate
 	podKeys   []types.NamespacedName
@@ -405,7 +524,11 @@ func buildIT(j jIT, gate bool) *cloudprovider.InstanceType {
 		}
 		ofs = append(ofs, o)
 	}
-	return fake.NewInstanceType(j.Name, fake.WithResources(rl(int64(j.CPU)*1000, int64(j.CPU)*2048, 20)), fake.WithOfferings(ofs...))
+	res := rl(int64(j.CPU)*1000, int64(j.CPU)*2048, 20)
+	if j.Huge {
+		res["hugepages-2Mi"] = *resource.NewQuantity(int64(j.CPU)*512<<20, resource.BinarySI) // allocatable memory is reduced by it
+	}
+	return fake.NewInstanceType(j.Name, fake.WithResources(res), fake.WithOfferings(ofs...))
 }
 
 func (w *world) buildPod(p jPod, nodeName string) *corev1.Pod {
@@ -425,6 +548,19 @@ func (w *world) buildPod(p jPod, nodeName string) *corev1.Pod {
 	}
 	if p.Invalid == "restricted-label" {
 		o.NodeSelector = map[string]string{"karpenter.sh/custom-restricted": "x"}
+	}
+	if p.Invalid == "no-karpenter" {
+		o.NodeRequirements = append(o.NodeRequirements, corev1.NodeSelectorRequirement{Key: v1.NodePoolLabelKey, Operator: corev1.NodeSelectorOpDoesNotExist})
+	}
+	if p.DRA != "" {
+		claim := "claim-" + p.Name
+		o.ResourceClaims = []corev1.PodResourceClaim{{Name: "dev", ResourceClaimName: &claim}}
+		o.ContainerResourceClaims = []corev1.ResourceClaim{{Name: "dev"}}
+	}
+	if p.PrefAff {
+		o.PodPreferences = []corev1.WeightedPodAffinityTerm{
+			{Weight: 1, PodAffinityTerm: corev1.PodAffinityTerm{LabelSelector: &metav1.LabelSelector{MatchLabels: map[string]string{"app": "nobody"}}, TopologyKey: corev1.LabelHostname}},
+			{Weight: 5, PodAffinityTerm: corev1.PodAffinityTerm{LabelSelector: &metav1.LabelSelector{MatchLabels: map[string]string{"app": "c18"}}, TopologyKey: corev1.LabelTopologyZone}}}
 	}
 	sel := &metav1.LabelSelector{MatchLabels: map[string]string{"app": "c18"}}
 	if p.Anti {
@@ -449,6 +585,9 @@ func (w *world) buildPod(p jPod, nodeName string) *corev1.Pod {
 	if p.NoDisrupt {
 		o.Annotations = map[string]string{v1.DoNotDisruptAnnotationKey: "true"}
 	}
+	if p.Ephemeral {
+		o.EphemeralVolumeTemplates = []test.EphemeralVolumeTemplateOptions{{StorageClassName: ptr("sc")}}
+	}
 	if p.Daemon {
 		dsName := "ds-bound"
 		if len(w.j.DaemonSets) > 0 {
@@ -458,12 +597,61 @@ func (w *world) buildPod(p jPod, nodeName string) *corev1.Pod {
 	} else {
 		o.OwnerReferences = []metav1.OwnerReference{{APIVersion: "apps/v1", Kind: "ReplicaSet", Name: "rs", UID: "rs-uid", Controller: ptr(true), BlockOwnerDeletion: ptr(true)}}
 	}
+	var pod *corev1.Pod
 	if nodeName != "" {
 		o.NodeName = nodeName
 		o.Phase = corev1.PodRunning
-		return test.Pod(o)
+		pod = test.Pod(o)
+	} else {
+		o.Phase = corev1.PodPhase(p.Phase)
+		pod = test.UnschedulablePod(o)
 	}
-	return test.UnschedulablePod(o)
+	// what the fixture options cannot express
+	switch p.Owner {
+	case "none":
+		pod.OwnerReferences = nil
+	case "node":
+		pod.OwnerReferences = []metav1.OwnerReference{{APIVersion: "v1", Kind: "Node", Name: nodeName, UID: "uid-" + types.UID(nodeName), Controller: ptr(true)}}
+	}
+	switch p.State {
+	case "succeeded":
+		pod.Status.Phase = corev1.PodSucceeded
+	case "terminating":
+		pod.Finalizers = []string{"c18/finalizer"}
+		pod.DeletionTimestamp = &metav1.Time{Time: w.clk.Now().Add(-10 * time.Second)}
+	case "preempting":
+		pod.Status.NominatedNodeName = "node-0"
+	}
+	if p.TwoTerms {
+		if pod.Spec.Affinity == nil {
+			pod.Spec.Affinity = &corev1.Affinity{}
+		}
+		if pod.Spec.Affinity.NodeAffinity == nil {
+			pod.Spec.Affinity.NodeAffinity = &corev1.NodeAffinity{}
+		}
+		na := pod.Spec.Affinity.NodeAffinity
+		if na.RequiredDuringSchedulingIgnoredDuringExecution == nil {
+			na.RequiredDuringSchedulingIgnoredDuringExecution = &corev1.NodeSelector{}
+		}
+		// first alternative cannot be met, the second can: the first is removed by relaxation
+		na.RequiredDuringSchedulingIgnoredDuringExecution.NodeSelectorTerms = append([]corev1.NodeSelectorTerm{{MatchExpressions: []corev1.NodeSelectorRequirement{
+			{Key: corev1.LabelTopologyZone, Operator: corev1.NodeSelectorOpIn, Values: []string{"no-such-zone"}}}}},
+			append(na.RequiredDuringSchedulingIgnoredDuringExecution.NodeSelectorTerms, corev1.NodeSelectorTerm{MatchExpressions: []corev1.NodeSelectorRequirement{
+				{Key: corev1.LabelOSStable, Operator: corev1.NodeSelectorOpIn, Values: []string{"linux"}}}})...)
+	}
+	if p.Invalid == "match-fields" {
+		pod.Spec.Affinity = &corev1.Affinity{NodeAffinity: &corev1.NodeAffinity{RequiredDuringSchedulingIgnoredDuringExecution: &corev1.NodeSelector{
+			NodeSelectorTerms: []corev1.NodeSelectorTerm{{MatchFields: []corev1.NodeSelectorRequirement{{Key: "metadata.name", Operator: corev1.NodeSelectorOpIn, Values: []string{"node-0"}}}}}}}}
+	}
+	for i := range pod.Spec.Containers[0].Ports {
+		if p.HostIP != "" {
+			pod.Spec.Containers[0].Ports[i].HostIP = p.HostIP
+		}
+		if p.UDP {
+			pod.Spec.Containers[0].Ports[i].Protocol = corev1.ProtocolUDP
+		}
+	}
+	return pod
 }
 
 func newWorld(j jWorld) *world {
@@ -471,9 +659,12 @@ func newWorld(j jWorld) *world {
 		cp: fake.NewCloudProvider(), rec: test.NewEventRecorder()}
 	w.faultVerb.Store("")
 	w.ctx = options.ToContext(context.Background(), test.Options(test.OptionsFields{
-		MinValuesPolicy:  ptr(options.MinValuesPolicy(j.MinValues)),
-		PreferencePolicy: ptr(options.PreferencePolicy(j.Prefs)),
-		FeatureGates:     test.FeatureGates{ReservedCapacity: ptr(j.Reserved)},
+		MinValuesPolicy:   ptr(options.MinValuesPolicy(j.MinValues)),
+		PreferencePolicy:  ptr(options.PreferencePolicy(j.Prefs)),
+		FeatureGates:      test.FeatureGates{ReservedCapacity: ptr(j.Reserved), CapacityBuffer: ptr(j.Buffer > 0)},
+		IgnoreDRARequests: ptr(!j.DRA),
+		BatchMaxDuration:  lo.Ternary(j.BatchMax > 0, ptr(time.Duration(j.BatchMax)*time.Second), nil),
+		CPURequests:       lo.Ternary(j.CPUReq > 0, ptr(int64(j.CPUReq)), nil),
 	}))
 	// catalogue
 	var its []*cloudprovider.InstanceType
@@ -484,8 +675,16 @@ func newWorld(j jWorld) *world {
 
 	// storage
 	w.add(test.StorageClass(test.StorageClassOptions{ObjectMeta: metav1.ObjectMeta{Name: "sc"}, Zones: []string{"test-zone-1", "test-zone-2"}, Provisioner: ptr("test.driver")}))
+	// a claim bound to a CSI volume pinned to one zone; a claim whose class is gone; a claim with the empty class
+	pv := test.PersistentVolume(test.PersistentVolumeOptions{ObjectMeta: metav1.ObjectMeta{Name: "pv-bound"}, Driver: "test.driver", Zones: []string{"test-zone-1"}, StorageClassName: "sc"})
+	pv.Namespace = "" // cluster scoped
+	w.add(pv)
+	w.add(test.PersistentVolumeClaim(test.PersistentVolumeClaimOptions{ObjectMeta: metav1.ObjectMeta{Name: "pvc-bound", Namespace: "default"}, StorageClassName: ptr("sc"), VolumeName: "pv-bound"}))
+	w.add(test.PersistentVolumeClaim(test.PersistentVolumeClaimOptions{ObjectMeta: metav1.ObjectMeta{Name: "pvc-nosc", Namespace: "default"}, StorageClassName: ptr("sc-missing")}))
+	w.add(test.PersistentVolumeClaim(test.PersistentVolumeClaimOptions{ObjectMeta: metav1.ObjectMeta{Name: "pvc-emptysc", Namespace: "default"}, StorageClassName: ptr("")}))
+	w.add(test.StorageClass(test.StorageClassOptions{ObjectMeta: metav1.ObjectMeta{Name: "sc-intree"}, Zones: []string{"test-zone-2", "test-zone-3"}, Provisioner: ptr("kubernetes.io/aws-ebs")}))
 	for _, n := range []string{"pvc-a", "pvc-b", "pvc-c"} {
-		w.add(test.PersistentVolumeClaim(test.PersistentVolumeClaimOptions{ObjectMeta: metav1.ObjectMeta{Name: n, Namespace: "default"}, StorageClassName: ptr("sc")}))
+		w.add(test.PersistentVolumeClaim(test.PersistentVolumeClaimOptions{ObjectMeta: metav1.ObjectMeta{Name: n, Namespace: "default"}, StorageClassName: ptr(lo.Ternary(n == "pvc-c", "sc-intree", "sc"))}))
 	}
 	// pools
 	for _, jp := range j.Pools {
@@ -499,11 +698,41 @@ func newWorld(j jWorld) *world {
 		if jp.PreferNo {
 			np.Spec.Template.Spec.Taints = []corev1.Taint{{Key: "c18/prefer", Value: "x", Effect: corev1.TaintEffectPreferNoSchedule}}
 		}
+		if jp.NoSched {
+			np.Spec.Template.Spec.Taints = append(np.Spec.Template.Spec.Taints, corev1.Taint{Key: "c18/dedicated", Value: "x", Effect: corev1.TaintEffectNoSchedule})
+		}
+		if jp.Static {
+			np.Spec.Replicas = ptr(int64(1))
+		}
+		if jp.NoTypes {
+			np.Spec.Template.Spec.Requirements = append(np.Spec.Template.Spec.Requirements, v1.NodeSelectorRequirementWithMinValues{
+				Key: corev1.LabelTopologyZone, Operator: corev1.NodeSelectorOpIn, Values: []string{"no-such-zone"}})
+		}
+		if jp.NodeLimit > 0 {
+			if np.Spec.Limits == nil {
+				np.Spec.Limits = v1.Limits{}
+			}
+			np.Spec.Limits["nodes"] = *resource.NewQuantity(int64(jp.NodeLimit-1), resource.DecimalSI)
+		}
+		switch jp.ITErr {
+		case "generic":
+			w.cp.ErrorsForNodePool[jp.Name] = fmt.Errorf("injected: instance types unavailable")
+		case "unevaluated":
+			w.cp.ErrorsForNodePool[jp.Name] = cloudprovider.NewUnevaluatedNodePoolError(jp.Name)
+		case "deadline":
+			w.cp.ErrorsForNodePool[jp.Name] = context.DeadlineExceeded
+		case "empty":
+			w.cp.InstanceTypesForNodePool[jp.Name] = []*cloudprovider.InstanceType{}
+		}
 		if jp.MinValues > 0 {
 			np.Spec.Template.Spec.Requirements = append(np.Spec.Template.Spec.Requirements, v1.NodeSelectorRequirementWithMinValues{
 				Key: corev1.LabelInstanceTypeStable, Operator: corev1.NodeSelectorOpExists, MinValues: ptr(jp.MinValues)})
 		}
-		np.Spec.Disruption.ConsolidateAfter = v1.MustParseNillableDuration("30s")
+		np.Spec.Disruption.ConsolidateAfter = v1.MustParseNillableDuration(lo.Ternary(jp.ConsAfter == "", "30s", jp.ConsAfter))
+		if jp.Deleting {
+			np.Finalizers = []string{"karpenter.sh/test-finalizer"}
+			np.DeletionTimestamp = &metav1.Time{Time: w.clk.Now().Add(-time.Minute)}
+		}
 		cs := np.StatusConditions()
 		cs.SetTrue(v1.ConditionTypeValidationSucceeded) // re-stamp the fixture's conditions with the object's generation
 		cs.SetTrue(v1.ConditionTypeNodeClassReady)
@@ -514,7 +743,7 @@ func newWorld(j jWorld) *world {
 			cs.SetFalse(v1.ConditionTypeNodeClassReady, "NotReady", "not ready")
 		}
 		w.add(np)
-		if jp.OwnSlice {
+		if jp.OwnSlice && jp.ITErr != "empty" {
 			own := make([]*cloudprovider.InstanceType, len(its))
 			copy(own, its)
 			w.cp.InstanceTypesForNodePool[jp.Name] = own
@@ -536,12 +765,54 @@ func newWorld(j jWorld) *world {
 			po.NodeRequirements = []corev1.NodeSelectorRequirement{{Key: corev1.LabelTopologyZone, Operator: corev1.NodeSelectorOpIn, Values: []string{d.ReqZone}}}
 			po.NodePreferences = []corev1.NodeSelectorRequirement{{Key: corev1.LabelArchStable, Operator: corev1.NodeSelectorOpIn, Values: []string{"amd64"}}}
 		}
+		if d.DRA != "" {
+			claim := "claim-" + d.Name
+			po.ResourceClaims = []corev1.PodResourceClaim{{Name: "dev", ResourceClaimName: &claim}}
+			po.ContainerResourceClaims = []corev1.ResourceClaim{{Name: "dev"}}
+		}
+		if d.Tolerate {
+			po.Tolerations = []corev1.Toleration{{Operator: corev1.TolerationOpExists}}
+		}
 		ds := test.DaemonSet(test.DaemonSetOptions{ObjectMeta: metav1.ObjectMeta{Name: d.Name, Namespace: "default", UID: types.UID("uid-" + d.Name)}, PodOptions: po})
 		w.add(ds)
 	}
 	// nodes
 	for _, jn := range j.Nodes {
 		w.addNode(jn)
+	}
+	// dynamic resources: one class, zoned cluster-managed devices, node-local devices (addNode), one claim per DRA pod
+	w.add(test.DeviceClassWithSelector("c18-class", "c18.example"))
+	for i, z := range zones {
+		if i < 2 {
+			w.add(test.ZonedSlice("zoned-"+z, "c18.example", z, "z0", "z1"))
+		}
+	}
+	claimFor := func(p jPod) {
+		if p.DRA == "claim" {
+			w.add(test.ResourceClaimForRequests("claim-"+p.Name, test.ExactDeviceRequest("dev", "c18-class", 1)))
+		}
+	}
+	for _, jn := range j.Nodes {
+		for _, jp := range jn.Pods {
+			claimFor(jp)
+		}
+	}
+	for _, jp := range j.Pending {
+		claimFor(jp)
+	}
+	for _, d := range j.DaemonSets {
+		claimFor(d)
+	}
+	if j.Buffer > 0 {
+		w.add(test.ReadyBuffer("buffer", int32(j.Buffer)))
+		w.add(test.PodTemplate(test.PodTemplateOptions{ObjectMeta: metav1.ObjectMeta{Name: "buffer-template", Namespace: "default"},
+			PodOptions: test.PodOptions{
+				ObjectMeta:           metav1.ObjectMeta{Labels: map[string]string{"app": "c18"}},
+				ResourceRequirements: corev1.ResourceRequirements{Requests: corev1.ResourceList{corev1.ResourceCPU: resource.MustParse("300m")}},
+				NodePreferences:      []corev1.NodeSelectorRequirement{{Key: corev1.LabelTopologyZone, Operator: corev1.NodeSelectorOpIn, Values: []string{"no-such-zone"}}},
+				TopologySpreadConstraints: []corev1.TopologySpreadConstraint{{MaxSkew: 1, TopologyKey: corev1.LabelTopologyZone, WhenUnsatisfiable: corev1.ScheduleAnyway,
+					LabelSelector: &metav1.LabelSelector{MatchLabels: map[string]string{"app": "c18"}}}},
+			}}))
 	}
 	// pending pods
 	var acked []*corev1.Pod
@@ -589,12 +860,35 @@ func newWorld(j jWorld) *world {
 			wr()
 			return c.SubResource(sub).Create(ctx, obj, subObj, opts...)
 		},
+		Get: func(ctx context.Context, c client.WithWatch, key client.ObjectKey, obj client.Object, opts ...client.GetOption) error {
+			if _, ok := obj.(*corev1.PersistentVolumeClaim); ok && w.faultVerb.Load().(string) == "get-pvc" {
+				return fmt.Errorf("injected: get pvc %s", key.Name)
+			}
+			return c.Get(ctx, key, obj, opts...)
+		},
 		List: func(ctx context.Context, c client.WithWatch, list client.ObjectList, opts ...client.ListOption) error {
 			f := w.faultVerb.Load().(string)
 			switch list.(type) {
 			case *corev1.PodList:
 				if f == "list-pods" {
 					return fmt.Errorf("injected: list pods")
+				}
+				if f == "list-node-pods" {
+					lopts := &client.ListOptions{}
+					lopts.ApplyOptions(opts)
+					if lopts.FieldSelector != nil {
+						if v, ok := lopts.FieldSelector.RequiresExactMatch("spec.nodeName"); ok && v != "" {
+							return fmt.Errorf("injected: list pods of node %s", v)
+						}
+					}
+				}
+			case *resourcev1.ResourceSliceList:
+				if f == "list-resourceslices" {
+					return fmt.Errorf("injected: list resourceslices")
+				}
+			case *appsv1.DaemonSetList:
+				if f == "list-daemonsets" {
+					return fmt.Errorf("injected: list daemonsets")
 				}
 			case *v1.NodePoolList:
 				if f == "list-nodepools" {
@@ -609,7 +903,9 @@ func newWorld(j jWorld) *world {
 		},
 	}, w.objs...)
 	w.cluster = state.NewCluster(w.clk, w.c, w.cp)
-	w.prov = provisioning.NewProvisioner(w.c, w.rec, w.cp, w.cluster, w.clk, deviceallocation.NewController(w.c), virtualpods.NewVirtualPodCache(w.c))
+	w.dac = deviceallocation.NewController(w.c)
+	w.vpc = virtualpods.NewVirtualPodCache(w.c)
+	w.prov = provisioning.NewProvisioner(w.c, w.rec, w.cp, w.cluster, w.clk, w.dac, w.vpc)
 	w.queue = disruption.NewQueue(w.c, w.rec, w.cluster, w.clk, w.prov)
 	var ncl v1.NodeClaimList
 	_ = w.c.List(w.ctx, &ncl)
@@ -639,6 +935,12 @@ func newWorld(j jWorld) *world {
 		_ = w.cluster.UpdateDaemonSet(w.ctx, &dsl.Items[i])
 	}
 	w.cluster.AckPods(acked...)
+	// what the operator's own controllers do at start-up: the device-allocation controller hydrates from the claims,
+	// the CapacityBuffer controller fills the virtual-pod cache (its pods are shared, not copied, by GetAll)
+	w.dac.Hydrate(w.ctx)
+	if j.Buffer > 0 {
+		_ = w.vpc.GetAll(w.ctx)
+	}
 	for _, jn := range j.Nodes {
 		pid := "fake:///" + jn.Name
 		if !jn.Managed {
@@ -676,7 +978,7 @@ func (w *world) addNode(n jNode) {
 	pool := w.j.Pools[n.Pool].Name
 	labels := map[string]string{
 		corev1.LabelInstanceTypeStable: it.Name,
-		v1.CapacityTypeLabelKey:        v1.CapacityTypeOnDemand,
+		v1.CapacityTypeLabelKey:        lo.Ternary(n.Spot, v1.CapacityTypeSpot, v1.CapacityTypeOnDemand),
 		corev1.LabelTopologyZone:       n.Zone,
 		corev1.LabelHostname:           n.Name,
 		corev1.LabelArchStable:         "amd64",
@@ -684,6 +986,9 @@ func (w *world) addNode(n jNode) {
 	}
 	alloc := rl(int64(it.CPU)*1000-100, int64(it.CPU)*2048-100, 20)
 	capa := rl(int64(it.CPU)*1000, int64(it.CPU)*2048, 20)
+	if n.NoHost {
+		delete(labels, corev1.LabelHostname)
+	}
 	var taints []corev1.Taint
 	if n.Tainted {
 		taints = []corev1.Taint{{Key: "c18/dedicated", Value: "x", Effect: corev1.TaintEffectNoSchedule}}
@@ -694,8 +999,9 @@ func (w *world) addNode(n jNode) {
 		labels[v1.NodePoolLabelKey] = pool
 		nc := test.NodeClaim(v1.NodeClaim{
 			ObjectMeta: metav1.ObjectMeta{Name: n.Name, Labels: labels, Finalizers: []string{"karpenter.sh/test-finalizer"}},
-			Spec:       v1.NodeClaimSpec{Taints: taints},
-			Status:     v1.NodeClaimStatus{ProviderID: pid, NodeName: n.Name, Allocatable: alloc, Capacity: capa},
+			Spec: v1.NodeClaimSpec{Taints: taints, StartupTaints: lo.Ternary(n.Startup,
+				[]corev1.Taint{{Key: "c18/startup", Value: "x", Effect: corev1.TaintEffectNoSchedule}}, nil)},
+			Status: v1.NodeClaimStatus{ProviderID: pid, NodeName: n.Name, Allocatable: alloc, Capacity: capa},
 		})
 		cs := nc.StatusConditions(status.WithClock(w.clk))
 		cs.SetTrue(v1.ConditionTypeLaunched)
@@ -704,6 +1010,9 @@ func (w *world) addNode(n jNode) {
 			cs.SetTrue(v1.ConditionTypeInitialized)
 		}
 		cs.SetTrue(v1.ConditionTypeConsolidatable)
+		if n.Term {
+			cs.SetTrue(v1.ConditionTypeInstanceTerminating)
+		}
 		if n.Deleting {
 			nc.DeletionTimestamp = &metav1.Time{Time: w.clk.Now().Add(-time.Minute)}
 		}
@@ -714,17 +1023,35 @@ func (w *world) addNode(n jNode) {
 	}
 	nl := lo.Assign(labels)
 	if n.Managed {
-		nl[v1.NodeRegisteredLabelKey] = "true"
+		if !n.Unreg {
+			nl[v1.NodeRegisteredLabelKey] = "true"
+		}
 		if n.Init {
 			nl[v1.NodeInitializedLabelKey] = "true"
 		}
 	}
-	node := test.Node(test.NodeOptions{ObjectMeta: metav1.ObjectMeta{Name: n.Name, Labels: nl, Finalizers: []string{"karpenter.sh/test-finalizer"}},
-		ProviderID: pid, Allocatable: alloc, Capacity: capa, Taints: taints})
+	nodeTaints, nodeAlloc, nodeCapa := taints, alloc, capa
+	if n.Startup {
+		nodeTaints = append(append([]corev1.Taint{}, taints...), corev1.Taint{Key: "c18/startup", Value: "x", Effect: corev1.TaintEffectNoSchedule},
+			corev1.Taint{Key: corev1.TaintNodeNotReady, Effect: corev1.TaintEffectNoSchedule})
+	}
+	if n.ZeroAlloc { // kubelet has not reported cpu yet: the NodeClaim's value is used while the node is not initialized
+		nodeAlloc, nodeCapa = lo.Assign(alloc), lo.Assign(capa)
+		nodeAlloc[corev1.ResourceCPU] = resource.MustParse("0")
+		nodeCapa[corev1.ResourceCPU] = resource.MustParse("0")
+	}
+	node := test.Node(test.NodeOptions{ObjectMeta: metav1.ObjectMeta{Name: n.Name, UID: types.UID("uid-" + n.Name), Labels: nl, Finalizers: []string{"karpenter.sh/test-finalizer"}},
+		ProviderID: pid, Allocatable: nodeAlloc, Capacity: nodeCapa, Taints: nodeTaints})
+	if n.NodeDel {
+		node.DeletionTimestamp = &metav1.Time{Time: w.clk.Now().Add(-time.Minute)}
+	}
+	if n.Devices > 0 {
+		w.add(test.NodeLocalSlice(node, "c18.example", []string{"d0", "d1"}[:n.Devices]...))
+	}
 	w.add(node)
 	if n.CSILimit > 0 {
 		w.add(&storagev1.CSINode{ObjectMeta: metav1.ObjectMeta{Name: n.Name},
-			Spec: storagev1.CSINodeSpec{Drivers: []storagev1.CSINodeDriver{{Name: "test.driver", NodeID: n.Name, Allocatable: &storagev1.VolumeNodeResources{Count: ptr(int32(n.CSILimit))}}}}})
+			Spec: storagev1.CSINodeSpec{Drivers: []storagev1.CSINodeDriver{{Name: "test.driver", NodeID: n.Name, Allocatable: lo.Ternary(n.CSINil, nil, &storagev1.VolumeNodeResources{Count: ptr(int32(n.CSILimit))})}}}})
 	}
 	for _, jp := range n.Pods {
 		pod := w.buildPod(jp, n.Name)
